@@ -9,4 +9,9 @@ CHECKS = {
         "note": "Trusted: Lean kernel; axioms propext/Classical.choice/Quot.sound; translator + harness; Spec.Rfc4648 transcription. binascii/base64 C codecs are external (modelled by the RFC transcription, compared on every generated input); a2b_base64's lenient skipping of foreign characters is outside the model.",
         "design_ref": "DESIGN.md §5 C12",
     },
+    "C06": {
+        "text": "Theorems: the map from the random source's value to getrandbytes/getrandstr output is injective and surjective onto the declared space for every size and alphabet (uniform source => uniform, independent output); the source is asked for exactly the space's size; bcrypt salt repair is exactly 16-to-1; declared salt parameters of every salted hasher are consistent (decide over the reflected registry). The extractor's shift/mask/div/mod expressions are regenerated from the source each run; real helpers, every salted hasher's salt generator and TOTP key generation are compared with the compiled model under a controlled random source.",
+        "note": "Assumes SystemRandom / secrets.choice / rng.choice uniform. Float length-from-entropy is enumerated against the exact integer minimum (not proved). Context-level 'salt' refusal is checked on the real code here and modelled under C10.",
+        "design_ref": "DESIGN.md §5 C06",
+    },
 }
